@@ -286,3 +286,17 @@ CHECKS["C12"] = {
         enum_job("generator", "./verifh/c12", "TestGeneratedCodeIsCurrent", env_plugins=True),
     ],
 }
+
+CHECKS["C13"] = {
+    "rule": ("rapid-generated call scripts for the four shapes of testproto.TestApi (0-5 messages each way, SetHeader/SendHeader/SetTrailer before the first message, trailers after each message, a status "
+             "code 1-16 or plain error at the end or after the k-th message, client cancel after the j-th received message, short client deadline against a handler that blocks on its context, "
+             "outgoing client metadata); each script is executed by one scripted server through wrap.ServerToClient and through a real grpc.Server on bufconn and the client transcripts compared "
+             "(messages in order, terminal outcome class, user header/trailer keys, messages and request metadata seen by the server); plus copy-isolation, unknown-method and shape-mismatch cases; "
+             "after every call no pkg/wrap goroutine may remain. non-trivial = script with >=1 message and a non-OK terminal, metadata, or a client cancel; distinct by script"),
+    "assumptions": ["scripts are rendezvous-consistent (no reliance on transport buffering)", "metadata keys are user keys from a fixed set; header operations after headers went out are not generated (gRPC misuse)",
+                    "for cancelled calls only the outcome class and a prefix relation on received messages are compared"],
+    "jobs": [
+        rapid_job("differential", "./verifh/c13", "TestWrapMatchesGRPC", 1500, 10000, timeout={Q: 400, T: 2400}),
+        rapid_job("isolation", "./verifh/c13", "TestWrapIsolationAndShape|TestWrapCancelWhileServerSends", 300, 2000, shards_t=2),
+    ],
+}
